@@ -188,9 +188,17 @@ func DecodeHintRecord(buf []byte) ([]byte, *DataPos) {
 }
 
 func DecodeChunk(block []byte) ([]byte, ChunkType, error) {
+	// 剩余字节不足以容纳 chunk 头部, 数据已损坏或被截断
+	if len(block) < chunkHeaderSize {
+		return nil, 0, ErrInvalidCRC
+	}
 	// length
 	length := binary.LittleEndian.Uint16(block[4:6])
 	start, end := chunkHeaderSize, chunkHeaderSize+uint32(length)
+	// 损坏的长度字段可能指向 block 之外, 必须在计算校验和之前检查
+	if end > uint32(len(block)) {
+		return nil, 0, ErrInvalidCRC
+	}
 	checksum := crc32.ChecksumIEEE(block[4:end])
 	savedSum := binary.LittleEndian.Uint32(block[:4])
 	if savedSum != checksum {
